@@ -253,6 +253,14 @@ def run_one(tape, cfg):
             X = apply(kind, base(kind, n1, 0), "X")
             Y = apply(kind, base(kind, n2, 50), "Y")
             two = tape.chance(1, 2, "two")
+            ny_expected = n2
+            if two and kind == "array" and n1 >= 2 and tape.chance(1, 2, "y_from_part_of_x"):
+                # the second input is built from only some of the chunks of the first: the
+                # checkpoint still has to wait for every chunk of both
+                k = 1 + tape.draw(n1 - 1, "xpart")
+                Y = apply(kind, X[: 2 * k], "Y")
+                ny_expected = k
+                out.probe("checkpoint_input_from_part_of_another")
             cp = checkpoint(X, Y, split_every=split_every) if two else checkpoint(X, split_every=split_every)
             taskfns.reset()
             log = taskfns.RUN["log"]
@@ -265,10 +273,10 @@ def run_one(tape, cfg):
             nx, ny = len(pos(log, "X", "end")), len(pos(log, "Y", "end"))
             if res is not None:
                 out.violate("checkpoint_value", f"{wl}: checkpoint computed to {res!r}")
-            elif nx != n1 or (two and ny != n2):
+            elif nx != n1 or (two and ny != ny_expected):
                 out.violate("checkpoint_skipped_chunks",
-                            f"{wl}: checkpoint returned after {nx}/{n1} X chunks and {ny}/{n2 if two else 0} "
-                            f"Y chunks")
+                            f"{wl}: checkpoint returned after {nx}/{n1} X chunks and "
+                            f"{ny}/{ny_expected if two else 0} Y chunks")
         else:  # clone
             O = apply(kind, base(kind, n1, 0), "O")
             X = apply(kind, O, "X", variant=variant)
